@@ -180,6 +180,38 @@ pub fn array_product(ex: &Ex, space: &str, slots: &[Item], arity: usize, offer: 
     });
 }
 
+/// Wide maps: `n` distinct valid extra pairs around the given typed pairs, with `fault` (if any)
+/// inserted at the front, in the middle and at the end.  Offers every variant to `offer`.
+pub fn wide_maps(ex: &Ex, space: &str, extras: &dyn Fn(usize) -> (Item, Item), typed: &[(Item, Item)], faults: &[(Item, Item)], offer: &(dyn Fn(&[u8], &mut Local) + Sync)) {
+    let sizes: Vec<usize> = match ex.scale {
+        Scale::Small => vec![17],
+        Scale::Quick => vec![17, 40],
+        Scale::Thorough => vec![16, 17, 33, 40, 100, 300],
+    };
+    ex.bound(space, "wide_map_sizes", json!(sizes));
+    let mut l = Local::default();
+    for n in sizes {
+        let mut base: Vec<(Item, Item)> = (0..n).map(extras).collect();
+        for (k, t) in typed.iter().enumerate() {
+            base.insert((k * 7 + 3) % (base.len() + 1), t.clone());
+        }
+        l.state(n as u64);
+        offer(&Item::Map(base.clone()).det(), &mut l);
+        let mut rev = base.clone();
+        rev.reverse();
+        offer(&Item::Map(rev).det(), &mut l);
+        for f in faults {
+            for pos in [0, base.len() / 2, base.len()] {
+                let mut m = base.clone();
+                m.insert(pos, f.clone());
+                l.state(n as u64);
+                offer(&Item::Map(m).det(), &mut l);
+            }
+        }
+    }
+    ex.rep.merge(l);
+}
+
 /// Every byte string of length <= maxlen through the given entry points (differential against the
 /// reference reader + rules: the bytes are not assumed to be CBOR at all).
 pub fn short_strings(ex: &Ex, space: &str, eps: &[(Ty, Entry)], maxlen: usize) {
